@@ -376,7 +376,7 @@ def const_variant_fns(crate):
     out = {}
     for p, fn in crate.fns.items():
         h = fn.get("hir")
-        if not h or h.get("k") != "Block" or h["stmts"] or "expr" not in h:
+        if not h or h.get("k") != "Block" or h["stmts"] or "expr" not in h or "trait_default" in fn:
             continue
         e = h["expr"]
         if e.get("k") == "Path" and e.get("res") == "def" and str(e.get("dk", "")).startswith("Ctor") and "Const" in e.get("dk", ""):
